@@ -75,3 +75,17 @@ Print Assumptions C11_not_added.
 Print Assumptions C11_named.
 Print Assumptions C11_exit_early.
 Print Assumptions C11_tracked_invalid_retained.
+
+(* ---- the monitor of the correspondence harness, as a theorem about the model -----------------
+   `mon_C11` (Corr/CorrPipeline.v), with "invalid" = pl_invalid of `plan_of sc c0` (the plan
+   recomputed from the initial cluster, which is the plan of the run): no request targets an
+   invalid object; no snapshot of the stored inventory holds an invalid id that was not tracked
+   before; under exit-early the run ends with the error before any request; under skip-invalid
+   every invalid id is named by a validation event and, when the run ends without error outside
+   dry-run, tracked invalid ids are still in the final inventory.  No hypothesis. *)
+From CliUtils Require Import Corr.CorrPipeline Proofs.PipelineMonC11.
+
+Theorem C11_monitor : forall sc c0, mon_C11 sc c0 (run sc c0) = true.
+Proof. exact monitor_C11. Qed.
+
+Print Assumptions C11_monitor.
